@@ -213,6 +213,12 @@ def run_case(spec, workdir):
                     exp_h[i] = [h for h in layout[i]["image_hdus"] if h != exp_h[i]][0]
                 seen.setdefault(fidx[i], i)
         hdu_index = list(exp_h)
+        if spec["entry"] in ("load", "simple", "args") and spec["seed"] % 3 == 0:
+            # some entries counted from the END of their file (-1 = the last HDU), as Python indexing and astropy allow
+            for i in range(nf):
+                if R.random() < 0.6:
+                    hdu_index[i] = exp_h[i] - layout[i]["n"]
+    orig_sel = list(hdu_index) if isinstance(hdu_index, list) else hdu_index
     if spec["ksel"] == "space":
         wcs_key = " "
         exp_k = [0] * nf
@@ -286,7 +292,7 @@ def run_case(spec, workdir):
                 probs.append("image %d is (file %d, hdu %d, key %r, shape %s, marker %s); selected (file %d, hdu %d, key %r, marker %d)" % (i, fi[0], fi[1], KEYS[fi[2]] if fi[2] < 3 else fi[2], fi[3], fi[4], want[0], want[1], KEYS[want[2]], 100 * fidx[i] + exp_h[i]))
             if fd[:4] != fi[:4] or fd[5] != fi[5]:
                 probs.append("description %d and image %d refer to different HDUs / WCS" % (i, i))
-            if os.path.abspath(exs[i][0]) != os.path.abspath(paths[i]) or exs[i][1] != exp_h[i]:
+            if os.path.abspath(exs[i][0]) != os.path.abspath(paths[i]) or exs[i][1] not in (exp_h[i], exp_h[i] - layout[i]["n"]):
                 probs.append("export_simple()[%d] = %s, expected (%s, %d)" % (i, exs[i], os.path.basename(paths[i]), exp_h[i]))
             if getattr(descs[i], "collection_id", None) != paths[i] or getattr(imgs[i], "collection_id", None) != paths[i]:
                 probs.append("item %d not in input order (collection_id %s)" % (i, getattr(descs[i], "collection_id", None)))
@@ -312,6 +318,21 @@ def run_case(spec, workdir):
             fdd = identify(d2[i], False)
             if fdd[:2] != (fidx[i], exp_h[i]):
                 probs.append("after reuse, description %d refers to (file %d, hdu %d), selected (file %d, hdu %d)" % (i, fdd[0], fdd[1], fidx[i], exp_h[i]))
+    if isinstance(orig_sel, list):
+        counters["negative_entries"] += sum(1 for h in orig_sel if h < 0)
+        if entry in ("load", "simple") and hdu_index != orig_sel:
+            probs.append("the caller's own selection list was rewritten by the collection: passed %s, now %s" % (orig_sel, hdu_index))
+        if entry in ("load", "simple") and nf >= 2 and all((l["n"] - 1) in l["image_hdus"] for l in layout) and len({l["n"] for l in layout}) >= 2:
+            # ONE selection object ("the last HDU of every file") used for two collections whose files differ in length
+            sel = [-1] * nf
+            for ps, lay, fx in ((paths, layout, fidx), (paths[1:] + paths[:1], layout[1:] + layout[:1], fidx[1:] + fidx[:1])):
+                c2 = collection.SimpleFitsCollection(ps, hdu_index=sel) if entry == "simple" else collection.load(ps, hdu_index=sel)
+                got = [identify(im, True)[:2] for im in c2.images()]
+                want = [(fx[i], lay[i]["n"] - 1) for i in range(nf)]
+                counters["items_identified"] += nf
+                counters["shared_selection_objects"] += 1
+                if got != want:
+                    probs.append("one selection list [-1, ...] used for two collections: got (file, hdu) %s, the last HDUs are %s" % (got, want))
     if entry in ("load", "simple", "args") and spec["seed"] % 2 == 0 and nf >= 2 and len(common) >= 2:
         # load() called from four threads of one process with DIFFERENT selections: every caller gets the HDUs it selected
         from vlib import threads
